@@ -100,6 +100,9 @@ let check (b : block) : verdict list =
     let out = ref [] in
     let add v = out := v :: !out in
     let model = Model.to_cnf c (Conv.nat_of_int n) in
+    (* the hypotheses of the C19 theorems (WF, all_reachable), discharged per input by the verified checker *)
+    if Model.check_wf c (Conv.nat_of_int n) then bump "theorem_hypotheses_check_wf_accepted"
+    else add (Diff ("check_wf", "loaded vector rejected by check_wf (hypothesis of the C19 theorems)"));
     (match impl b "panic" with
      | Some msg ->
        let msg = String.concat " " msg in
